@@ -1,4 +1,5 @@
 from fractions import Fraction
+import os
 """C04 - tilt carried as metadata is optically identical to tilt in the OPD."""
 from .. import nf
 from ..nf import Poly, Tup, Const, Slice, NONE, TRUE, FALSE
@@ -132,6 +133,9 @@ def fit_tilt_rule(chk, repo, clause):
         for t, e in zip(tilts, eins):
             n += 1
             spec, basis, coef = e.data['args'][0], e.data['args'][1], e.data['args'][2]
+            _pv = nf.attr(S('self'), 'ptt_vector')
+            basis = nf.block_rows_view(basis, _pv, nf.attr(S('self'), 'size'), 3)      # reshape(size, 3, -1)[k] = rows 3k..3k+2
+            coef = nf.block_rows_view(coef, _pv, nf.attr(S('self'), 'size'), 3)
             ba, ca = basis.single_atom(), coef.single_atom()
             # basis rows lo:hi and coefficient entries lo':hi'
             bk = ba[2] if ba and ba[0] == 'idx' else None
@@ -142,7 +146,8 @@ def fit_tilt_rule(chk, repo, clause):
             if coef_var is not None and coef_var[0] not in ('loop', 'sym'):
                 # the coefficients were read back from where the fit was stored: name that store
                 for w in p.events:
-                    if w.kind == 'write' and w.data.get('how') == 'setitem' and w.data.get('value') == Poly.atom(coef_var) \
+                    if w.kind == 'write' and w.data.get('how') == 'setitem' and isinstance(w.data.get('value'), Poly) and \
+                            nf.block_rows_view(w.data.get('value'), _pv, nf.attr(S('self'), 'size'), 3) == Poly.atom(coef_var) \
                             and isinstance(w.target, Poly) and w.target.single_atom() is not None:
                         coef_var = w.target.single_atom()
             tilt_only = isinstance(bk, Slice) and isinstance(cs, Slice) and cs.lo == C(1) and cs.hi == C(3) and \
